@@ -457,6 +457,11 @@ func (tb *TB) build(v ssa.Value) *Term {
 		if x.Comment == "rangeindex" {
 			return mk("RangeIdx", "", v)
 		}
+		if l := indexLoop(x); l != nil {
+			// for i := 0; i < len(X); i++ is the range loop over X: i is (counter + 1) of a
+			// counter that starts at -1, exactly as go/ssa writes `for i := range X`
+			return mk("Bin", "+", nil, mk("RangeIdx", "", v), mk("Const", "1", nil))
+		}
 		t := mk("Phi", x.Comment, v)
 		seenPhi := map[*ssa.Phi]bool{x: true}
 		seenStr := map[string]bool{}
@@ -1384,7 +1389,67 @@ func (tb *TB) makeSlice(ms *ssa.MakeSlice) *Term {
 	return tb.makeSliceFrom(ms, ms.Len)
 }
 
+// mapLoopTerm: make([]T, len(X)) filled by `for i := range X { buf[i] = f(X[i]) }` and used
+// only after the loop is the slice that `buf = append(buf, f(X[i]))` builds from nil.
+func (tb *TB) mapLoopTerm(ms ssa.Value, length ssa.Value) *Term {
+	over, ok := lenOf(length)
+	if !ok {
+		return nil
+	}
+	var store *ssa.Store
+	var loop *RangeLoop
+	refs := ms.Referrers()
+	if refs == nil {
+		return nil
+	}
+	var others []ssa.Instruction
+	for _, r := range *refs {
+		switch u := r.(type) {
+		case *ssa.DebugRef:
+		case *ssa.IndexAddr:
+			if u.Referrers() == nil {
+				return nil
+			}
+			for _, rr := range *u.Referrers() {
+				st, isSt := rr.(*ssa.Store)
+				if !isSt || st.Addr != ssa.Value(u) || store != nil {
+					return nil
+				}
+				store = st
+				for _, l := range rangeLoops(tb.fn) {
+					if l.Index == u.Index && (stripConv(l.Over) == stripConv(over) || tb.Term(l.Over).Key() == tb.Term(over).Key()) && l.inLoop(st.Block()) {
+						loop = l
+					}
+				}
+			}
+		default:
+			others = append(others, r)
+		}
+	}
+	if store == nil || loop == nil {
+		return nil
+	}
+	for _, in := range others {
+		b := in.Block()
+		if ph, isPhi := in.(*ssa.Phi); isPhi {
+			for i, e := range ph.Edges {
+				if e == ms && !tb.p.completedAt(loop, ph.Block().Preds[i]) {
+					return nil
+				}
+			}
+			continue
+		}
+		if !tb.p.completedAt(loop, b) {
+			return nil
+		}
+	}
+	return mk("Phi", "", ms, mk("Concat", "", nil, &Term{Op: "Loop"}, mk("List", "", nil, tb.Term(store.Val))), mk("Nil", "nil", nil))
+}
+
 func (tb *TB) makeSliceFrom(ms ssa.Value, length ssa.Value) *Term {
+	if t := tb.mapLoopTerm(ms, length); t != nil {
+		return t
+	}
 	fi := tb.fillInfo(ms, length)
 	n := tb.Term(length)
 	switch fi.Kind {
